@@ -93,22 +93,14 @@ RegisterAccess ra_malformed_write(RegisterTable*,
 
 /* Iteration */
 
-struct maybe_area {
-    bool valid;
-    AreaHandle handle;
-};
-
 struct maybe_register {
     bool valid;
     RegisterHandle handle;
 };
 
-static struct maybe_area find_area(const RegisterTable*,
-                                   AreaHandle, AreaHandle,
-                                   RegisterAddress);
 static struct maybe_register find_reg(const RegisterTable*t,
                                       RegisterHandle, RegisterHandle,
-                                      RegisterAddress);
+                                      RegisterAddress, RegisterOffset);
 static RegisterAccess reg_iterate(RegisterTable*,
                                   RegisterHandle, RegisterAddress,
                                   registerCallback, void*);
@@ -1733,33 +1725,15 @@ register_sanitise(RegisterTable *t)
 /* Linear search: Simple and likely sufficient with short register tables. We
  * can replace with with bisection if this turns out not to be the case. */
 
-static struct maybe_area
-find_area(const RegisterTable *t,
-          AreaHandle first, AreaHandle last,
-          RegisterAddress addr)
-{
-    struct maybe_area rv = { .valid = true, .handle = 0 };
-
-    for (AreaHandle i = first; i <= last; i++) {
-        if (ra_addr_is_part_of(t->area + i, addr)) {
-            rv.handle = i;
-            return rv;
-        }
-    }
-
-    rv.valid = false;
-    return rv;
-}
-
 static struct maybe_register
 find_reg(const RegisterTable *t,
          RegisterHandle first, RegisterHandle last,
-         RegisterAddress addr)
+         RegisterAddress addr, RegisterOffset n)
 {
     struct maybe_register rv = { .valid = true, .handle = 0 };
 
     for (RegisterHandle i = first; i <= last; i++) {
-        if (reg_range_touches(t->entry + i, addr, 1u) == 0) {
+        if (reg_range_touches(t->entry + i, addr, n) == 0) {
             rv.handle = i;
             return rv;
         }
@@ -1840,22 +1814,12 @@ register_foreach_in(RegisterTable *t,
     }
 
     /*
-     * Find the first register in the given range.
-     *
-     * If addr is mapped, first looking up by area, then by entry within that
-     * area works with the least amount of operations. If addr is not mapped,
-     * we're performing the look-up over all entries within the table.
+     * Find the first register that overlaps the given range. The range may
+     * well start in a gap between registers or in unmapped space, so looking
+     * at the area that contains addr is not enough; search the whole table.
      */
-    struct maybe_area startarea = find_area(t, 0, t->areas - 1u, addr);
-    struct maybe_register startreg;
-
-    if (startarea.valid) {
-        const RegisterHandle first = t->area[startarea.handle].entry.first;
-        const RegisterHandle last = t->area[startarea.handle].entry.last;
-        startreg = find_reg(t, first, last, addr);
-    } else {
-        startreg = find_reg(t, 0, t->entries - 1u, addr);
-    }
+    const struct maybe_register startreg =
+        find_reg(t, 0, t->entries - 1u, addr, off);
 
     if (startreg.valid == false) {
         return rv;
